@@ -116,6 +116,8 @@ func (d *Decoder) decodeSlice(pkt *rtp.Packet) ([]byte, error) {
 
 	switch {
 	case b == 1 && e == 1:
+		// a complete slice: fragments of a previous, unfinished slice are obsolete
+		d.resetFragments()
 		return pkt.Payload[4:], nil
 
 	case b == 1:
